@@ -36,7 +36,7 @@ def shards(tier, seed):
 def requirements(tier):
     return {"steps_checked": 800, "shadow_bitwise_checked": 1000, "task_param_checked": 250, "alias_checked": 300,
             "values_unchanged_checked": 400, "repeat_bitwise": 100, "w_create_then_accumulate": 100, "w_accumulate_onto_edited": 80,
-            "w_none_after_non_none": 30, "w_mtl_and_bw_on_common_leaf": 60, "w_autograd_interleaved": 80, "w_fresh_created": 300}
+            "w_none_after_non_none": 30, "w_mtl_and_bw_on_common_leaf": 60, "w_autograd_interleaved": 80, "w_fresh_created": 300, "w_non_contiguous_parameter": 50, "w_non_contiguous_grad_assigned": 10}
 
 
 def gen_agg(rng, m):
@@ -57,6 +57,9 @@ def gen_case(rng, i, max_len=8):
     ns = int(rng.integers(1, 3))
     npool = int(rng.integers(1, 4))
     L = [{"shape": list(P.LEAF_SHAPES[rng.integers(len(P.LEAF_SHAPES))]), "rg": True} for _ in range(ns + npool)]
+    for d in L:
+        if sum(1 for x in d["shape"] if x > 1) >= 2 and rng.random() < 0.4:
+            d["nc"] = True  # non-contiguous parameter
     vseed = int(rng.integers(1 << 30))
     A = P.gen_program(rng, dtype, leaf_descs=L, vseed=vseed)
     C = P.gen_program(rng, dtype, leaf_descs=L, vseed=vseed)
@@ -88,7 +91,7 @@ def gen_case(rng, i, max_len=8):
         elif r < 0.86:
             st = {"op": "edit", "leaf": int(rng.integers(nL)), "a": float(np.round(rng.uniform(-2, 2), 3)), "b": float(np.round(rng.uniform(-1, 1), 3))}
         elif r < 0.92:
-            st = {"op": "fresh", "leaf": int(rng.integers(nL)), "gseed": int(rng.integers(1 << 30))}
+            st = {"op": "fresh", "leaf": int(rng.integers(nL)), "gseed": int(rng.integers(1 << 30)), "nc": bool(rng.random() < 0.5)}
         else:
             if prev_call is None:
                 continue
@@ -392,7 +395,12 @@ def check_case(case, ctx):
                 hist_flags.add(("edited", j))
             elif op == "fresh":
                 g = np.random.default_rng(st["gseed"])
-                l.grad = torch.tensor(g.standard_normal(tuple(l.shape)), dtype=torch.float64).to(dtype)
+                fresh = torch.tensor(g.standard_normal(tuple(l.shape)), dtype=torch.float64).to(dtype)
+                if st.get("nc") and fresh.ndim >= 2:
+                    fresh = fresh.transpose(0, -1).contiguous().transpose(0, -1)  # a user-assigned .grad with a non-contiguous layout
+                l.grad = fresh
+                if not l.grad.is_contiguous():
+                    ctx.count("w_non_contiguous_grad_assigned")
                 shadow[j] = l.grad.detach().clone()
                 hist_flags.add(("edited", j))
         if vio:
@@ -402,6 +410,8 @@ def check_case(case, ctx):
         ctx.violation(vio[0], _slim(case), vio[1])
     if created_then_acc:
         ctx.count("w_create_then_accumulate")
+    if any(not l.is_contiguous() for l in w.L):
+        ctx.count("w_non_contiguous_parameter")
     if any(("bw", j) in hist_flags and ("mtl", j) in hist_flags for j in range(nL)):
         ctx.count("w_mtl_and_bw_on_common_leaf")
     ops = [s["op"] for s in case["steps"]]
